@@ -298,6 +298,13 @@ func runCheck(id, tier, repo string, seed int, writeBaseline bool) int {
 	t1 := time.Now()
 	solver.DischargeAll(all, 14)
 	solveWall := time.Since(t1).Seconds()
+	if os.Getenv("GOCV_TIMING") != "" {
+		for _, ob := range all {
+			if ob.TimeS > 3 || ob.Status != "discharged" {
+				fmt.Fprintf(os.Stderr, "timing: %s %s %s %.1fs\n", ob.Status, ob.Name, ob.Solver, ob.TimeS)
+			}
+		}
+	}
 
 	// group by base name
 	groups := map[string]*obGroup{}
